@@ -93,10 +93,8 @@ func plainOK(s string, flow bool) bool {
 			return false
 		case c == '#' && i > 0 && s[i-1] == ' ':
 			return false
-		case flow && strings.IndexByte(",[]{}", c) >= 0:
-			return false
-		case flow && c == ':' && i+1 < len(s) && strings.IndexByte(",[]{}", s[i+1]) >= 0:
-			return false
+		case flow && !('a' <= c && c <= 'z' || 'A' <= c && c <= 'Z' || '0' <= c && c <= '9' || strings.IndexByte("._-^$\\/:()+ ", c) >= 0):
+			return false // inside [...] only a conservative alphabet is written plain
 		}
 	}
 	return true
